@@ -155,6 +155,7 @@ def run(ctx):
             samples.append({"graph": {k: g[k] for k in ("nodes", "bound", "entrypoints", "selected")}, "reported": spec})
         i += 1
     n_eval += nested_part(ctx, dist, nontrivial)
+    n_eval += bound_output_part(ctx, dist)
     res = batch.run()
     if res["error"]:
         ctx.violation("harness", res["error"])
@@ -250,6 +251,41 @@ def nested_part(ctx, dist, nontrivial):
                 ctx.violation("oracle", f"rejected call (omitted {x!r}) still invoked {len(obs2['log'])} node function(s) / delivered {len(obs2.get('events', []))} event(s)",
                               case={"graph": g, "run": {"inputs": less, "omitted": x}})
         nontrivial.add(canon({"nested": g["nodes"], "b": g.get("bound"), "s": g.get("selected")}))
+    return n_eval
+
+
+def bound_output_part(ctx, dist):
+    """bind() also accepts OUTPUT names (the producer is then bypassed).  Oracle only; see known finding F-g."""
+    rng = ctx.rng
+    n_eval = 0
+    for _ in range(ctx.n(12, 150)):
+        g = gen.gen_dag(rng, max_nodes=5, edge_defaults=0.0, emits=0.0)
+        for n in g["nodes"]:
+            n["defaults"] = {}
+        outs = [o for n in g["nodes"] for o in n["outputs"]]
+        consumed = {p for n in g["nodes"] for p in n["inputs"]}
+        cands = [o for o in outs if o in consumed]
+        if not cands:
+            continue
+        g["bound"] = {rng.choice(cands): 77}
+        try:
+            spec = real_spec(engine.real_input_spec(g))
+        except Exception:  # noqa: BLE001
+            continue
+        dist["bound_output"] = dist.get("bound_output", 0) + 1
+        inputs = {x: rng.randint(0, 3) for x in spec["required"]}
+        kind, obs = attempt(g, inputs, "sync")
+        n_eval += 1
+        if kind != "accepted":
+            ctx.violation("oracle", f"all required inputs supplied, yet the call is rejected: {obs.get('error_repr')}",
+                          case={"graph": g, "run": {"inputs": inputs}}, observed=spec)
+        for x in spec["required"]:
+            less = {k: v for k, v in inputs.items() if k != x}
+            kind2, obs2 = attempt(g, less, "sync")
+            n_eval += 1
+            if kind2 != "missing":
+                ctx.violation("oracle", f"required input {x!r} omitted but the call was {kind2} ({obs2.get('error_repr')})",
+                              case={"graph": g, "run": {"inputs": less, "omitted": x}}, observed=spec)
     return n_eval
 
 
